@@ -405,8 +405,7 @@ func analyseDrainLoops(p *GoProg, body ast.Node) []*drainLoop {
 				}
 				term := false
 				for _, g := range guards {
-					gs := strings.ReplaceAll(p.Str(g), " ", "")
-					if strings.Contains(gs, ".index==-1") {
+					if isTerminatorGuard(p, g) {
 						term = true
 					}
 				}
@@ -670,6 +669,46 @@ func ruleDrain(c *Ctx) {
 				okJoin = false
 			}
 		}
+		// the WaitGroup counts exactly this goroutine: Add(1) before `go`, a deferred Done as the goroutine's first statement
+		okPair := false
+		nAdd := 0
+		ast.Inspect(fd.Body, func(n ast.Node) bool {
+			if call, ok := n.(*ast.CallExpr); ok && strings.HasSuffix(p.CalleeName(call), "sync.WaitGroup).Add") && len(call.Args) == 1 {
+				nAdd++
+				if k, ok := p.ConstInt(call.Args[0]); ok && k == 1 && call.Pos() < gs.Pos() {
+					okPair = true
+				}
+			}
+			return true
+		})
+		okDone := false
+		if len(lit.Body.List) > 0 {
+			if ds, ok := lit.Body.List[0].(*ast.DeferStmt); ok && strings.HasSuffix(p.CalleeName(ds.Call), "sync.WaitGroup).Done") {
+				okDone = true
+			}
+		}
+		c.Check(okPair && nAdd == 1 && okDone, "parseMessage:waitgroup", p.Pos(gs), "wg.Add(1) before the go statement, deferred wg.Done() first in the goroutine", "the WaitGroup of the stage-2 goroutine is not (Add(1) before go, deferred Done first in the goroutine): wg.Wait() returns too early or never", "any document above 8 KiB")
+		// the goroutine is started exactly for the long inputs: `go` sits in the then-branch of len(Message) > threshold
+		okBranch := false
+		for n := ast.Node(gs); n != nil; n = p.Parent(n) {
+			ifs, ok := n.(*ast.IfStmt)
+			if !ok {
+				continue
+			}
+			be, isB := ast.Unparen(ifs.Cond).(*ast.BinaryExpr)
+			if !isB {
+				continue
+			}
+			inThen := gs.Pos() >= ifs.Body.Pos() && gs.End() <= ifs.Body.End()
+			l, r := p.Str(be.X), p.Str(be.Y)
+			_, rc := p.ConstInt(be.Y)
+			_, lc := p.ConstInt(be.X)
+			if inThen && ((strings.HasPrefix(l, "len(") && rc && (be.Op == token.GTR || be.Op == token.GEQ)) || (strings.HasPrefix(r, "len(") && lc && (be.Op == token.LSS || be.Op == token.LEQ))) {
+				okBranch = true
+			}
+			break
+		}
+		c.Check(okBranch, "parseMessage:async-for-long", p.Pos(gs), "the concurrent branch is the one taken for inputs longer than the threshold", "the stage-2 goroutine is not started exactly for inputs above the size threshold: long inputs would run stage 1 to completion first and block on the full channel", "a document of several hundred KiB")
 		c.Check(okJoin, "parseMessage:join", p.Pos(gs), "wg.Wait() on every path from the go statement to a return", "a return is reachable from the go statement without wg.Wait(): the stage-2 goroutine may still write the tape after Parse returned", "a large document with a stage-1 error")
 	}
 }
@@ -763,9 +802,16 @@ func ruleReset(c *Ctx) {
 			// make(chan…) when nil: value is a call atom
 			if nd.field == "R.indexChans" {
 				a, _ := v.SingleAtom()
-				if strings.Contains(a, "make(") || a == "R.indexChans" {
+				// freshly made, or kept after having been found non-nil on this path
+				if strings.Contains(a, "make(") || (a == "R.indexChans" && hasCond(snapSP, "R.indexChans", token.NEQ, "nil")) {
 					continue
 				}
+				msg := "before the stages start the index channel may be nil on some path (it is neither made nor known to be non-nil): stage 1 then blocks for ever on its first send"
+				if !bad[msg] {
+					bad[msg] = true
+					c.Bad("parseMessage:reset:"+nd.field, p.Pos(fd), msg+condsDesc(snapSP, 5), "the first parse on a fresh object")
+				}
+				continue
 			}
 			if !nd.ok(v, snapSP) {
 				msg := fmt.Sprintf("before the stages start, %s is %s on some path; required: %s", nd.field, v.String(), nd.desc)
@@ -829,6 +875,62 @@ func ruleReset(c *Ctx) {
 				c.Bad("initialize:R.Strings", p.Pos(ifd), "after initialize() the string buffer is neither truncated ([:0]) nor freshly allocated: "+sb.String()+" / "+st.String(), "strings of an earlier document precede the new ones")
 			}
 		}
+		// the existing string buffer is touched only when the pointer was found non-nil; the fresh one starts empty
+		for _, sp := range isps {
+			if !sp.Feasible() {
+				continue
+			}
+			reused := false
+			for _, ef := range sp.Effects {
+				if ef.Kind == "store" && ef.Target == "R.Strings.B" {
+					reused = true
+				}
+			}
+			if reused && !hasCond(sp, "R.Strings", token.NEQ, "nil") && !ibad["nil"] {
+				ibad["nil"] = true
+				c.Bad("initialize:R.Strings:nil", p.Pos(ifd), "initialize() reslices pj.Strings.B although pj.Strings may be nil on that path (a fresh parser state has no string buffer yet)"+condsDesc(sp, 4), "the first parse on a fresh object")
+			}
+			st := finalOf(sp.Env, "R.Strings")
+			if ta, _ := st.SingleAtom(); strings.HasPrefix(ta, "&lit:TStrings{") && !strings.HasPrefix(reCallNum.ReplaceAllString(ta, ""), "&lit:TStrings{make([]byte,0,") && !ibad["fresh"] {
+				ibad["fresh"] = true
+				c.Bad("initialize:R.Strings:fresh", p.Pos(ifd), "a freshly allocated string buffer does not start empty: "+ta, "")
+			}
+		}
+		// every mention of pj.Strings.B inside a condition sits behind `pj.Strings != nil &&` (or `pj.Strings == nil ||`)
+		ast.Inspect(ifd.Body, func(n ast.Node) bool {
+			sel, ok := n.(*ast.SelectorExpr)
+			if !ok || sel.Sel.Name != "B" || !strings.HasSuffix(p.Str(sel.X), ".Strings") {
+				return true
+			}
+			guarded := false
+			child := ast.Node(sel)
+			for par := p.Parent(child); par != nil; par = p.Parent(par) {
+				switch x := par.(type) {
+				case *ast.BinaryExpr:
+					if x.Y == child || containsNode(x.Y, child) {
+						for _, cj := range conjuncts(x.X) {
+							if be, ok := ast.Unparen(cj).(*ast.BinaryExpr); ok && p.Str(be.X) == p.Str(sel.X) && p.Str(be.Y) == "nil" && ((x.Op == token.LAND && be.Op == token.NEQ) || (x.Op == token.LOR && be.Op == token.EQL)) {
+								guarded = true
+							}
+						}
+					}
+				case *ast.IfStmt:
+					if containsNode(x.Body, child) {
+						for _, cj := range conjuncts(x.Cond) {
+							if be, ok := ast.Unparen(cj).(*ast.BinaryExpr); ok && be.Op == token.NEQ && p.Str(be.X) == p.Str(sel.X) && p.Str(be.Y) == "nil" {
+								guarded = true
+							}
+						}
+					}
+				}
+				child = par
+			}
+			if !guarded && !ibad["nilcond"] {
+				ibad["nilcond"] = true
+				c.Bad("initialize:R.Strings:nil", p.Pos(sel), "initialize() looks into pj.Strings.B where pj.Strings may be nil (not behind `pj.Strings != nil &&`)", "the first parse on a fresh object")
+			}
+			return true
+		})
 		if len(ibad) == 0 {
 			c.Ok("initialize:reset", p.Pos(ifd), "Tape, Strings.B, scope stack and current index buffer are reset on every path")
 		}
@@ -1413,3 +1515,42 @@ func stage2DoneResult(c *Ctx, p *GoProg) {
 		"a document larger than 8 KiB that stage 1 accepts and stage 2 rejects after the last index, e.g. `[[ … ]`")
 	c.Check(okAsg, "unifiedMachine:done:source", p.Pos(posBad), "`done` is only ever assigned from updateChar", "`done` is assigned from something other than updateChar ("+whyA+")", "")
 }
+
+// isTerminatorGuard: the condition holds exactly when the received descriptor is the terminator: X.index == -1 (either
+// operand order), possibly written as !(X.index != -1); a conjunction qualifies when one conjunct does.
+func isTerminatorGuard(p *GoProg, g ast.Expr) bool {
+	g = ast.Unparen(g)
+	neg := false
+	for {
+		u, ok := g.(*ast.UnaryExpr)
+		if !ok || u.Op != token.NOT {
+			break
+		}
+		neg = !neg
+		g = ast.Unparen(u.X)
+	}
+	be, ok := g.(*ast.BinaryExpr)
+	if !ok {
+		return false
+	}
+	if be.Op == token.LAND && !neg {
+		return isTerminatorGuard(p, be.X) || isTerminatorGuard(p, be.Y)
+	}
+	want := token.EQL
+	if neg {
+		want = token.NEQ
+	}
+	if be.Op != want {
+		return false
+	}
+	isIdx := func(e ast.Expr) bool {
+		sel, ok := ast.Unparen(e).(*ast.SelectorExpr)
+		return ok && sel.Sel.Name == "index"
+	}
+	isM1 := func(e ast.Expr) bool {
+		k, ok := p.ConstInt(e)
+		return ok && k == -1
+	}
+	return (isIdx(be.X) && isM1(be.Y)) || (isIdx(be.Y) && isM1(be.X))
+}
+
